@@ -29,6 +29,22 @@ func c05GenHandlerSeq(r *verifh.Rng) []verifh.Section {
 		secs = append(secs, verifh.Section{Cfg: fmt.Sprintf("kind=maxconns mode=seq n=%d", n),
 			Ops: c5.SeqOps(r, n, r.Range(10, 50), false, c5.FinishOp(r))})
 	}
+	// several middleware instances alive at once (MaxConnsHandler(n) called several times, equal and different
+	// n), requests interleaved: each instance is checked against its own n
+	for i := 0; i < verifh.Scale(8, 100); i++ {
+		k := r.Range(2, 4)
+		var ns []int
+		var lists [][]string
+		for j := 0; j < k; j++ {
+			n := c5.PickN(r)
+			if j > 0 && r.Chance(1, 2) {
+				n = ns[0]
+			}
+			ns = append(ns, n)
+			lists = append(lists, c5.SeqOps(r, n, r.Range(6, 20), false, c5.FinishOp(r)))
+		}
+		secs = append(secs, verifh.Section{Cfg: fmt.Sprintf("kind=maxconns mode=seq ns=%s", c5.MultiNs(ns)), Ops: c5.MultiOps(r, lists)})
+	}
 	return secs
 }
 
@@ -187,10 +203,15 @@ func TestVerifC05HandlerConc(t *testing.T) { c05RunHandler(t, verifh.Sections(c0
 
 func c05RunHandler(t *testing.T, secs []verifh.Section) {
 	logx.Disable()
-	verifh.Run(t, secs, func(cfg verifh.Cfg) (func(op []string) string, func()) {
+	var start func(cfg verifh.Cfg) (func(op []string) string, func())
+	start = func(cfg verifh.Cfg) (func(op []string) string, func()) {
+		if cfg.Str("ns", "") != "" {
+			return c5.Multi(cfg, start)
+		}
 		if cfg.Str("kind", "") == "maxconns" {
 			return c05StartMaxConns(cfg)
 		}
 		return func([]string) string { return "bad-kind" }, nil
-	})
+	}
+	verifh.Run(t, secs, start)
 }
